@@ -185,7 +185,7 @@ fn disassemble(req: &json::JsonValue) -> json::JsonValue {
     let prog = unhex(req["prog"].as_str().unwrap_or(""));
     match panic::catch_unwind(|| rbpf::disassembler::to_insn_vec(&prog)) {
         Err(p) => json::object! { "status": "panic", "msg": pmsg(p) },
-        Ok(v) => json::object! { "status": "ok", "insns": json::JsonValue::Array(v.iter().map(|i| json::object! { "opc": i.opc, "name": i.name.as_str(), "desc": i.desc.as_str(), "dst": i.dst, "src": i.src, "off": i.off, "imm": format!("{}", i.imm) }).collect()) },
+        Ok(v) => json::object! { "status": "ok", "insns": json::JsonValue::Array(v.iter().map(|i| json::object! { "opc": i.opc, "name": i.name.as_str(), "desc": i.desc.as_str(), "dst": i.dst, "src": i.src, "off": i.off as i64, "imm": format!("{}", i.imm) }).collect()) },
     }
 }
 
